@@ -19,12 +19,14 @@ from mirsmt.strings import SStr, SChoice, SChar, valid_char
 from mirsmt.tmpl import short_fn, PatStr
 
 TOKENS = ['Slot', 'Ident', 'PVar', 'ColonEquals', 'LParen', 'RParen', 'LBracket', 'RBracket']
-IDENTS = {'Lf': ['f', 'g', 'h', 'zz'], 'Lb': ['var', 'app', 'lam', 'k', 'u', 'j', 'zz']}
+IDENTS = {'Lf': ['f', 'g', 'h', 'zz'], 'Lb': ['var', 'app', 'lam', 'k', 'u', 'j', 'zz'], 'Lp': ['pu', 'pv', 'pc', '7', 'zz']}
 
 @M.add(r'^(slot::)?Slot::named$', front=True, first=True)
 def stub_named(ex, c, args, m):
     if not getattr(ex, 'stub_named', False): return NotImplemented
     n = getattr(ex, '_named_n', 0); ex._named_n = n + 1
+    if n == 0: ex._named_calls = []
+    ex._named_calls.append(dd(args[0]))
     return slot(z3.BitVec('named_%d' % n, 32))
 
 def mk_tokens(ex, n, lang):
@@ -107,7 +109,9 @@ def run_tokens(S_, lang, n, stats, findings):
     stats['fenc'] |= set(ex.inlined); stats['lmod'] |= ex.modelled; stats['solver_s'] += ex.t_solver; stats['branches'] += ex.n_branches
 
 SEEDS = {'Lb': ['( lam $s0 ( app ( var $s0 ) ?a ) )', '?a [ ?b [ ?c := ?d ] := ?e ]', '?a [ ?b := ?c ] [ ?d := ?e ]', '( app ?a [ ?b := ?c ] ( var $s1 ) )', '( app ( lam $s0 ?a ) ( u ?b ) )'],
-         'Lf': ['( f $s0 $s1 ) [ ?a := ( g $s1 $s0 ) ]']}
+         'Lf': ['( f $s0 $s1 ) [ ?a := ( g $s1 $s0 ) ]'],
+         'Lp': ['( pu ( pu 7 ) )', '( pu zz ) [ ( pv $s0 ) := 7 ]', '( pc 7 )']}
+NAMED_PAYLOAD_SEEDS = {'( pc 7 )'}      # a named operator with a payload field: known finding (the payload is read as a leaf term)
 def seed_kinds(text, lang):
     out = []
     for t in text.split():
@@ -148,7 +152,7 @@ def run_seeded(S_, lang, seed, max_dev, stats, findings):
                 if ident is not None: exact.append(ch.sel == IDENTS[lang].index(ident))
             sx = z3.Solver(); sx.add(*p['pc']); sx.add(*exact)
             if sx.check() == z3.sat and not (disc == 0 and rest == 0):
-                findings.append({'level': 'tokens', 'lang': lang, 'n': n, 'kind': 'valid_text_rejected', 'msg': 'the printed form of a well-formed pattern is rejected', 'where': 'parse_pattern', 'text': seed})
+                findings.append({'level': 'tokens', 'lang': lang, 'n': n, 'kind': 'valid_text_rejected', 'msg': 'the printed form of a well-formed pattern is rejected', 'where': 'named_payload_operator' if seed in NAMED_PAYLOAD_SEEDS else 'parse_pattern', 'text': seed})
             if disc == 0 and wf is False: findings.append({'level': 'tokens', 'lang': lang, 'n': n, 'kind': 'illformed', 'msg': 'ill-formed Ok value', 'where': 'parse_pattern_nosubst', 'text': token_text(ex_model(p['pc']), meta)})
             elif disc == 0 and rest == 0 and stats.get('rt') is not None: stats['rt'].append((lang, token_text(ex_model(p['pc']), meta)))
     stats['fenc'] |= set(ex.inlined); stats['lmod'] |= ex.modelled; stats['solver_s'] += ex.t_solver; stats['branches'] += ex.n_branches
@@ -156,6 +160,7 @@ def run_seeded(S_, lang, seed, max_dev, stats, findings):
 def ex_model(pc):
     s = z3.Solver(); s.add(*pc); assert s.check() == z3.sat; return s.model()
 
+def cval_(c): return strings.cval(c)
 def mk_string(ex, n):
     cs = [z3.BitVec('ch%d' % i, 32) for i in range(n)]
     for c in cs: ex.assume(valid_char(c))
@@ -174,6 +179,23 @@ def run_text(S_, lang, n, which, stats, findings):
         r = ex_.call(fn, [s])
         wf = None
         if which == 'pattern' and r.disc == 0: wf = pattern_wf(ex_, R, r.payload.f[0])
+        if which == 'tokenize' and r.disc == 0:
+            # every slot token is Slot::named(<the identifier run that follows the '$'>): the k-th slot token is the k-th answer of the stub, and the
+            # text handed to the stub is a maximal run of identifier characters directly behind a '$'
+            calls = list(getattr(ex_, '_named_calls', [])) if ex_._named_n else []
+            k = 0; bad = None
+            for t in dd(r.payload.f[0]).items:
+                t = dd(t)
+                if t.disc != ex_.session.enums['Token::Slot']: continue
+                v = dd(dd(t.payload.f[0]).f[0])
+                if not (z3.is_expr(v) and z3.is_const(v) and str(v) == 'named_%d' % k): bad = 'slot token %d is not the value Slot::named returned' % k; break
+                a = calls[k] if k < len(calls) else None
+                if not (isinstance(a, SStr) and a.chars is cs and a.start >= 1): bad = 'Slot::named was not called with the text behind the $'; break
+                if not ex_.valid(z3.And(cval_(cs[a.start - 1]) == ord('$'), *[_ident_char(c) for c in a.cs()]))[0]: bad = 'the slot name is not the identifier run behind a $'; break
+                if a.end < len(cs) and not ex_.valid(z3.Not(_ident_char(cs[a.end])))[0]: bad = 'the slot name stops before the end of the identifier run'; break
+                k += 1
+            if bad is None and k != len(calls): bad = 'Slot::named called %d times for %d slot tokens' % (len(calls), k)
+            return (r.disc, wf, bad)
         return (r.disc, wf)
     cs = [z3.BitVec('ch%d' % i, 32) for i in range(n)]
     for p in ex.explore(entry, max_paths=200000):
@@ -184,10 +206,17 @@ def run_text(S_, lang, n, which, stats, findings):
         elif p['result'][0] == 0 and p['result'][1] is False:
             m = ex_model(p['pc'])
             findings.append({'level': 'text:' + which, 'lang': lang, 'n': n, 'kind': 'illformed', 'msg': 'ill-formed Ok value', 'where': 'parse_pattern_nosubst', 'codepoints': string_text(m, cs)})
+        elif len(p['result']) > 2 and p['result'][2]:
+            # several models of the path: names that str::parse::<u32> conflates (leading zero, '+') are tried first, the slot they denote is compared natively with Slot::named
+            single = z3.And(cs[0] == ord('$'), *[_ident_char(c) for c in cs[1:]])       # the whole text is one slot token: the native replay parses "(var <text>)"
+            for extra in ([z3.And(single, z3.Or(cs[1] == ord('0'), cs[1] == ord('+')))] if n >= 3 else []) + [single, []]:
+                sx = z3.Solver(); sx.add(*p['pc']); sx.add(*([extra] if not isinstance(extra, list) else extra))
+                if sx.check() == z3.sat:
+                    findings.append({'level': 'text:slottok', 'lang': lang, 'n': n, 'kind': 'slot_token', 'msg': p['result'][2], 'where': 'tokenize', 'codepoints': string_text(sx.model(), cs)})
     stats['fenc'] |= set(ex.inlined); stats['lmod'] |= ex.modelled; stats['solver_s'] += ex.t_solver; stats['branches'] += ex.n_branches
 
 # ---- payload texts (language Lp: a u32 payload variant before a Symbol payload variant) against a reference recogniser --------------
-LP_OPS = ['pu', 'pv']
+LP_OPS = ['pu', 'pv', 'pc']
 def _ident_char(c):
     return z3.And(z3.Not(strings.is_ws(c)), *[c != ord(x) for x in '()[]'])
 def _digit(c): return z3.And(z3.UGE(c, 48), z3.ULE(c, 57))
@@ -285,6 +314,9 @@ def classify(f):
 def native_replay(f, profile='release'):
     cps = f.get('codepoints')
     if cps is None: cps = [ord(c) for c in f['text']]
+    if f['level'].endswith('slottok'):
+        txt = 'case parse:r %s slottok\ntext %s\n' % (f['lang'], ' '.join(str(c) for c in cps))
+        return native.run_cases(txt, profile).get('parse:r')
     kind = 'multirt' if f['level'].endswith('multirt') else 'multi' if f['level'].endswith('multi') else ('recexpr' if f['level'].endswith('recexpr') or f['level'].endswith('payload') else 'pattern')
     txt = 'case parse:r %s %s\ntext %s\n' % (f['lang'], kind, ' '.join(str(c) for c in cps))
     r = native.run_cases(txt, profile).get('parse:r')
@@ -296,6 +328,7 @@ def confirmed(f, r):
     if f['kind'] == 'roundtrip': return not (res.startswith('ok same=true') or res.startswith('err'))      # found natively; the replay repeats it
     if f['kind'] == 'panic': return res.startswith('panic')
     if f['kind'] == 'valid_text_rejected': return res.startswith('err') or res.startswith('panic')
+    if f['kind'] == 'slot_token': return 'differs' in res or res.startswith('panic')
     if f['kind'] == 'payload_value': return not res == 'ok wf=true ' + expected_print(r['text'])
     if f['level'].endswith('multi'): return res.startswith('ok wf=false') or res.startswith('panic')      # printing an ill-formed multi-pattern indexes past its child list
     return res.startswith('ok wf=false')
@@ -312,8 +345,9 @@ def run(tier, seed=0):
         for n in range(0, NTOK + 1):
             if lang == 'Lf' and n > 5: continue
             plan.append(('tokens', lang, n))
-    for lang in ('Lb', 'Lf'):
+    for lang in ('Lb', 'Lf', 'Lp'):
         for sd in SEEDS[lang]: plan.append(('seeded', lang, sd))
+    for n in range(1, 5): plan.append(('tokens', 'Lp', n))
     for n in range(0, NTXT + 1): plan.append(('text:tokenize', 'Lb', n))
     for n in range(0, NTXT + 1): plan.append(('text:pattern', 'Lb', n))
     for n in range(0, NTXT + 1): plan.append(('text:multi', 'Lb', n))
